@@ -24,7 +24,7 @@ use yverif::shell::run_script;
 mod listing {
     //! Listings leg.  Case: `L <op> <op> …`, each op colon-separated with hex strings:
     //!   `v:<name>:<value>:<attrs>`   `typeset [-x] [-r] -- 'name=value'`     attrs ⊆ "xr" or `-`
-    //!                                (`pv:` / `pn:` = the name starts with `+`: listed without `--`, known finding)
+    //!                                (`pv:` / `pn:` = the name starts with `+`; was listed without `--` until /repo 70b6315)
     //!   `n:<name>:<attrs>`           `typeset [-x] [-r] -- 'name'` (no value; keeps an existing value)
     //!   `a:<name>:<v1>,<v2>…:<attrs>` `name=('v1' 'v2' …)` then `typeset -x…` (name is an identifier)
     //!   `l:<name>:<value>`           `alias -- 'name=value'`   (`lg:` = both parts unquoted with `[` … `]` across)
